@@ -95,8 +95,8 @@ PROPS = {
         "trusted": [], "assumptions": [],
     },
     "C11": {
-        "lean_targets": ["Pep508.Theorems.C11", "Pep508.Theorems.C05", "Pep508.Theorems.C05b", "Pep508.Theorems.NonVacuityA"],
-        "theorems": ["Pep508.C11.restrict_eval", "Pep508.C11.restrict_independent", "Pep508.C11.not_mentioned_irrelevant",
+        "lean_targets": ["Pep508.Theorems.C11b", "Pep508.Theorems.C11", "Pep508.Theorems.C05", "Pep508.Theorems.C05b", "Pep508.Theorems.NonVacuityA"],
+        "theorems": ["Pep508.C11.top_level_extra_shape", "Pep508.C11.top_level_extra_gates", "Pep508.C11.top_level_extra_gates_built", "Pep508.C11.top_level_extra_none_true", "Pep508.C11.top_level_extra_none_false", "Pep508.C11.nv_gates", "Pep508.C11.restrict_eval", "Pep508.C11.restrict_independent", "Pep508.C11.not_mentioned_irrelevant",
                      "Pep508.C11.with_extra_marker_eval", "Pep508.C11.extra_expr_eval", "Pep508.OK_restrict", "Pep508.C05.common_term_holds_norm"],
         "suites": [{"name": "algebra", "args": ["C11"]}, {"name": "algebra", "args": ["C05"]}],
         "rule": "a pool of markers is built through the real API along random construction paths (typed expressions, and/or/negate, simplify_extras, "
